@@ -393,6 +393,7 @@ def run(ck: common.Check):
     _ph = {"prove": round(time.time() - _t[0], 1)}
     _t[0] = time.time()
     mc.init_env()
+    lim = mc.CorrLimiter(ck)
     ck.rule = ("cases = corpus + all presence subsets of the optional top-level keys x 3 axis shapes + every unit x axis type "
                "and every dtype + seeded random valid documents (nested unicode `extra`, infinite bounds, aliases of dtype "
                "names), each through JSON text, zarr v2/v3 attributes with foreign attributes, jsonschema, and a sample of "
@@ -451,31 +452,31 @@ def run(ck: common.Check):
         for (idx, kind, mi), mo in zip(owners, model):
             c, im = cases[idx], impl[idx]
             if "err" in mo:
-                ck.corr_broken("C08:driver", c.get("doc"), None, mo)
+                lim.corr_broken("C08:driver", c.get("doc"), None, mo)
                 continue
             if kind == "rt":
                 if mo["parse"] != im["parse"]:
-                    ck.corr_broken("C08:parse-outcome", c["doc"], im["parse"], mo["parse"])
+                    lim.corr_broken("C08:parse-outcome", c["doc"], im["parse"], mo["parse"])
                     continue
                 if im["parse"] != "ok":
                     continue
                 if mc.canon(mo["dump"]) != im["dump"]:
-                    ck.corr_broken("C08:dump", c["doc"], im["dump"], mc.canon(mo["dump"]))
+                    lim.corr_broken("C08:dump", c["doc"], im["dump"], mc.canon(mo["dump"]))
                 for zc in im.get("zarr_corr", [])[:1]:
-                    ck.corr_broken("C08:stored-attribute-is-dump", c["doc"], zc, "stored attribute = dump")
+                    lim.corr_broken("C08:stored-attribute-is-dump", c["doc"], zc, "stored attribute = dump")
                 if mo["valid"] != (im["viol"] == "valid"):
-                    ck.corr_broken("C08:lean-spec-vs-python-oracle", c["doc"], im["viol"], mo["valid"])
+                    lim.corr_broken("C08:lean-spec-vs-python-oracle", c["doc"], im["viol"], mo["valid"])
                 if im["viol"] == "valid":
                     if not (mo["reparse_same"] and mo["attrs_same"] and mo["foreign_kept"]):
-                        ck.corr_broken("C08:model-roundtrip", c["doc"], "round trips", mo)
+                        lim.corr_broken("C08:model-roundtrip", c["doc"], "round trips", mo)
                     if mo["schema_ok"] != im["schema"]["published"] or mo["schema_ok_published"] != im["schema"]["published"]:
-                        ck.corr_broken("C08:evaluator-vs-jsonschema(dump)", c["doc"], im["schema"],
+                        lim.corr_broken("C08:evaluator-vs-jsonschema(dump)", c["doc"], im["schema"],
                                        {"spec": mo["schema_ok"], "published": mo["schema_ok_published"]})
             else:
                 m = im["mutations"][mi]
                 if mo["verdict"] != m["published"]:
                     nmut_dis += 1
-                    ck.corr_broken("C08:evaluator-vs-jsonschema(mutation)", {"desc": m["desc"], "inst": m["inst"]},
+                    lim.corr_broken("C08:evaluator-vs-jsonschema(mutation)", {"desc": m["desc"], "inst": m["inst"]},
                                    m["published"], mo["verdict"])
     # malformed stream: `extra` with values JSON cannot carry
     mal = [{"doc": mc.gen_doc(ck.rng), "malformed": k} for k in ("nan", "tuple", "numpy", "nparray", "bytes", "set")
